@@ -24,8 +24,9 @@ type c07Loc struct {
 	lines []int // function indices, leaf-most first
 }
 type c07Table struct {
-	funcs []string // unique names; function id = index+1
-	locs  []c07Loc
+	funcs  []string // function id = index+1; names are unique unless starts tells two builds of one function apart
+	starts []int64  // optional: Function.StartLine per function
+	locs   []c07Loc
 }
 type c07Sample struct {
 	locs   []int // indices into table.locs
@@ -39,6 +40,7 @@ type c07Prof struct {
 	periodType [2]string
 	period     int64
 	samples    []c07Sample
+	sparse     bool // the profile lists only the locations / functions its samples use (ids stay tuple-wide)
 	duration   int64
 	timeNanos  int64
 }
@@ -56,20 +58,44 @@ func (t *c07Table) build(pp c07Prof) *profile.Profile {
 	for _, st := range pp.types {
 		p.SampleType = append(p.SampleType, &profile.ValueType{Type: st[0], Unit: st[1]})
 	}
-	for i, n := range t.funcs {
-		p.Function = append(p.Function, &profile.Function{ID: uint64(i + 1), Name: n, SystemName: n, Filename: "f.go"})
+	useLoc := map[int]bool{}
+	useFn := map[int]bool{}
+	for _, s := range pp.samples {
+		for _, li := range s.locs {
+			useLoc[li] = true
+			for _, fi := range t.locs[li].lines {
+				useFn[fi] = true
+			}
+		}
 	}
-	for _, l := range t.locs {
+	fnByIdx := map[int]*profile.Function{}
+	for i, n := range t.funcs {
+		if pp.sparse && !useFn[i] {
+			continue
+		}
+		f := &profile.Function{ID: uint64(i + 1), Name: n, SystemName: n, Filename: "f.go"}
+		if i < len(t.starts) {
+			f.StartLine = t.starts[i]
+		}
+		fnByIdx[i] = f
+		p.Function = append(p.Function, f)
+	}
+	locByIdx := map[int]*profile.Location{}
+	for li, l := range t.locs {
+		if pp.sparse && !useLoc[li] {
+			continue
+		}
 		loc := &profile.Location{ID: l.id, Address: l.addr}
 		for _, fi := range l.lines {
-			loc.Line = append(loc.Line, profile.Line{Function: p.Function[fi], Line: int64(10 + fi)})
+			loc.Line = append(loc.Line, profile.Line{Function: fnByIdx[fi], Line: int64(10 + fi)})
 		}
+		locByIdx[li] = loc
 		p.Location = append(p.Location, loc)
 	}
 	for _, s := range pp.samples {
 		ss := &profile.Sample{Value: append([]int64(nil), s.vals...)}
 		for _, li := range s.locs {
-			ss.Location = append(ss.Location, p.Location[li])
+			ss.Location = append(ss.Location, locByIdx[li])
 		}
 		if len(s.labels) > 0 {
 			ss.Label = map[string][]string{}
@@ -177,6 +203,22 @@ func c07DumpMerged(p *profile.Profile) Term {
 	return L(L(sts...), S(p.DefaultSampleType), pt, Z(p.Period), L(ss...), ZI(di))
 }
 
+// funcOrder: function names in the order of the merged function table (sources first, then bases;
+// per profile the functions it lists, in table order), every name once.
+func (t *c07Tuple) funcOrder() []string {
+	var out []string
+	seen := map[string]bool{}
+	for _, pp := range append(append([]c07Prof(nil), t.srcs...), t.bases...) {
+		for _, f := range t.tab.build(pp).Function {
+			if !seen[f.Name] {
+				seen[f.Name] = true
+				out = append(out, f.Name)
+			}
+		}
+	}
+	return out
+}
+
 func (t *c07Tuple) top(p *profile.Profile, col int) Term {
 	total, items, err := driver.VerifC07Top(p, strconv.Itoa(col))
 	if err != nil {
@@ -192,7 +234,7 @@ func (t *c07Tuple) top(p *profile.Profile, col int) Term {
 	}
 	var out []Term
 	seen := map[string]bool{}
-	for _, n := range t.tab.funcs {
+	for _, n := range t.funcOrder() {
 		if v, ok := byName[n]; ok && !seen[n] {
 			seen[n] = true
 			out = append(out, L(S(n), Z(v[0]), Z(v[1])))
@@ -511,6 +553,9 @@ func runC07(c *Ctx) {
 		c.Case(gen, t.input(), obs, t.nontrivial(), tags...)
 	}
 	emit("finding-F4", c07F4())
+	for _, sh := range c07UnitsLayoutShapes() { // also under VERIF_ONLY=units (C15's harmonising clause)
+		emit("units-layout-"+sh.name, sh.t)
+	}
 
 	base := c07Knobs{nsrc: 2, maxSamples: 4, maxCol: 3, zeros: 4, negative: true, labels: true}
 	modes := []struct {
@@ -543,6 +588,9 @@ func runC07(c *Ctx) {
 		{"extreme-values", 60, 1000, func(k *c07Knobs, r *Rng) { k.big = 1 + r.Intn(2); k.nsrc = 2 + r.Intn(2) }},
 	}
 	if os.Getenv("VERIF_ONLY") != "units" {
+		for _, sh := range c07BuildsShapes() {
+			emit("builds-"+sh.name, sh.t)
+		}
 		runC07E2E(c, func(gen string, in, obs Term, nt bool, tags ...string) { c.Case(gen, in, obs, nt, tags...) })
 	}
 	for _, st := range streams {
